@@ -116,6 +116,8 @@ func TestCheck(t *testing.T) {
 	// inbound and end-to-end first: they are the small parts and must not be the ones a budget cut-off loses
 	timed("fixed", func() bool { return outboundFixed(r) })
 	timed("inbound", func() bool { return inbound(t, r, deadline, workers) })
+	// the clock as an environment that may answer differently each time it is asked within one Deliver call
+	timed("clock_sequences", func() bool { return clockSequences(t, r, deadline, workers) })
 	// the written text of the window bounds: fractions, zone offsets, spellings, epoch, year 1 and 9999, bounds 1 ns apart
 	timed("bounds", func() bool { return boundSpellings(t, r, deadline, workers, ties) })
 	// number / order / grouping of HMAC routes and of signed targets in one configuration, reloads between configurations
@@ -178,6 +180,11 @@ func TestCheck(t *testing.T) {
 		"Each scenario: one Deliver call per selection mode at every clock instant of the group (each written instant, 1 ns before and after it, the whole seconds before/at/after it, one instant in 2000; ascending) and one inbound request per signer {each version, unconfigured} x "+
 		"signed timestamp (those whole seconds, as far as an inbound request can carry them) x route {tolerance 100000d, default tolerance}. Reference: the harness reads the text it wrote with its own RFC 3339 reader (integer arithmetic, proleptic Gregorian, no package time): "+
 		"valid iff from <= t < until as written. A configuration the application refuses to start is counted (bnd_*_refused_*) and not judged; what starts has to read every bound as written. "+
+		"Clock-answer sequences (seq_*): the deliverer's clock seam answers from a script (answer by reading index within ONE Deliver call, the last answer repeats). Every tuple of <=3 versions (all loadable) x selection x secret_ref order "+
+		"(triples, quick: identity and reversed order, 1 request shape; otherwise all orders, 2 shapes) x every constant script [b], b in the 20 clock instants; then, driven by the number m of readings the call actually made, every consumed reading index j (behind the script's fixed part, j < maxReads) "+
+		"is given every other instant c (earlier or later), recursively up to maxDev deviations (quick maxReads=4 maxDev=1, thorough 6/2; coverage key seq_bounds; the part has a wall budget of its own, 25 s / 4 min, that only matters on a tree that reads the clock more than once per call). A deviation at an index the call never reads is the same run as without it and is not repeated. "+
+		"Judged: a request that is sent carries unix-seconds T and is signed by a version v such that ONE of the instants a the clock answered in this call has unix(a)=T and v in the rule-selected group at a; nothing sent only if at one of the answers no version is valid. "+
+		"seq_calls_with_<m>_clock_readings shows how many readings the tree under test makes (one reading = the dimension collapses to the constant scripts). "+
 		"Race side pass (TestRace, -race build): concurrent signed requests to three routes with different lists, reloads that reorder them, and concurrent Deliver calls for three targets on one deliverer.")
 	r.Assume("time lattice t0=2000-01-01T00:01:00Z, step 10s in every part but the written-bounds part (bnd_*), which is the one that enumerates sub-second bounds, zone offsets, spellings and extreme years - on sets of <= 2 versions (thorough: chains of 3), one route / target per set")
 	r.Assume("written bounds: fractions of more than 9 digits, leap seconds (:60), 24:00:00, offsets beyond +-14:00 and years outside 0000..9999 are not written; a refused configuration (e.g. lower-case t/z, valid_until not after valid_from, a bound at 0001-01-01T00:00:00Z) is an admissible outcome and is not judged; inbound timestamps further than 100000d from the bubble clock (year 9999, year 1) cannot be presented, those groups are judged inbound at the clock's own second only")
